@@ -74,6 +74,29 @@ impl Property for C06 {
         if rng.chance(1, 6) {
             ops.push(BOp::SetVersion(*rng.pick(&[1u8, 1, 0, 3]), rng.below(7) as u8));
         }
+        if rng.chance(1, 3) {
+            // enumerant-pair sweep: two or three pairs of execution modes / decorations, each pair on one id, the
+            // enumerants named by the seed (half of the pairs from the related-name pairs: LocalSize / LocalSizeId, ...)
+            use crate::bdrive::{related_pairs, PAIR_MARK};
+            for _ in 0..rng.range(2, 3) {
+                let modes = rng.chance(1, 2);
+                let (a, b) = if rng.chance(1, 2) {
+                    let rp = related_pairs(if modes { "ExecutionMode" } else { "Decoration" });
+                    if rp.is_empty() { (0, 1) } else { *rng.pick(rp) }
+                } else {
+                    (rng.below(200) as u16, rng.below(200) as u16)
+                };
+                let salt = rng.below(1 << 20) << 16;
+                for idx in [a, b] {
+                    let method = if modes {
+                        if rng.chance(1, 4) { "execution_mode_id" } else { "execution_mode" }
+                    } else {
+                        "decorate"
+                    };
+                    ops.push(BOp::Call { method: method.into(), arg_seed: (PAIR_MARK << 48) | salt | idx as u64, explicit_rid: false, ip_kind: 0, ip_k: 0 });
+                }
+            }
+        }
         let mut switch64 = false;
         if rng.chance(1, 500) {
             // scale: the largest encodable instruction / strings around 65535 bytes / 65536+ typed ids
